@@ -177,6 +177,37 @@ fn change_one_deep_leaf(v: &mut Value, rng: &mut Rng) {
     }
 }
 
+/// The laws of a coherent total order, equality and hash over every pair and triple of `pool`.
+fn pool_laws(pool: &[Value], st: &mut Stats, d: &mut Digest) -> Option<Violation> {
+    let n = pool.len();
+    let mut rels = vec![vec![None; n]; n];
+    for i in 0..n {
+        for j in 0..n {
+            let r = match rel(&pool[i], &pool[j]) { Ok(r) => r, Err(m) => return viol("c14.panic", format!("{} vs {}: {}", pool[i], pool[j], m)) };
+            let same = same_value(&pool[i], &pool[j]);
+            st.bump("pool_pairs_checked");
+            let what = || format!("{} vs {}", pool[i], pool[j]);
+            if r.eq != same || r.ne == same { return viol("c14.eq_vs_structure", format!("{}: == is {} but the values are structurally {}", what(), r.eq, if same { "identical" } else { "different" })); }
+            if (r.cmp == Ordering::Equal) != same { return viol("c14.ord_equal_iff_eq", format!("{}: cmp = {:?} but the values are structurally {}", what(), r.cmp, if same { "identical" } else { "different" })); }
+            if r.cmp != r.cmp_rev.reverse() { return viol("c14.ord_antisymmetry", format!("{}: cmp(a,b) = {:?} but cmp(b,a) = {:?}", what(), r.cmp, r.cmp_rev)); }
+            if r.pcmp != Some(r.cmp) { return viol("c14.partial_cmp", format!("{}: partial_cmp = {:?} but cmp = {:?}", what(), r.pcmp, r.cmp)); }
+            if !ops_agree(&r) { return viol("c14.partial_cmp", format!("{}: the operators <, <=, >, >= answer {:?} but cmp = {:?}", what(), r.ops, r.cmp)); }
+            if same && !r.hash_same { return viol("c14.hash_eq", format!("{}: equal values hash differently", what())); }
+            rels[i][j] = Some(r.cmp);
+            d.u8(r.cmp as i8 as u8);
+        }
+    }
+    for i in 0..n { for j in 0..n { for k in 0..n {
+        if let (Some(a), Some(b), Some(c)) = (rels[i][j], rels[j][k], rels[i][k]) {
+            if a != Ordering::Greater && b != Ordering::Greater && c == Ordering::Greater {
+                return viol("c14.transitivity", format!("{} <= {} and {} <= {} but {} > {}", pool[i], pool[j], pool[j], pool[k], pool[i], pool[k]));
+            }
+        }
+    } } }
+    st.add("pool_triples_checked", (n * n * n) as u64);
+    None
+}
+
 pub fn run_c14(sc: &HistSc, st: &mut Stats) -> super::c06::HistOutcome {
     use super::c06::HistOutcome;
     set_hash_config(hash_mode_of(&sc.hash_mode), sc.hash_seed);
@@ -317,32 +348,37 @@ pub fn run_c14(sc: &HistSc, st: &mut Stats) -> super::c06::HistOutcome {
             pool.push(v); pool.push(w);
         }
     }
-    let n = pool.len();
-    let mut rels = vec![vec![None; n]; n];
-    for i in 0..n {
-        for j in 0..n {
-            let r = match rel(&pool[i], &pool[j]) { Ok(r) => r, Err(m) => return HistOutcome { violation: viol("c14.panic", format!("{} vs {}: {}", pool[i], pool[j], m)), outcome: d.finish(), nontrivial } };
-            let same = same_value(&pool[i], &pool[j]);
-            st.bump("pool_pairs_checked");
-            let what = || format!("{} vs {}", pool[i], pool[j]);
-            if r.eq != same || r.ne == same { return HistOutcome { violation: viol("c14.eq_vs_structure", format!("{}: == is {} but the values are structurally {}", what(), r.eq, if same { "identical" } else { "different" })), outcome: d.finish(), nontrivial }; }
-            if (r.cmp == Ordering::Equal) != same { return HistOutcome { violation: viol("c14.ord_equal_iff_eq", format!("{}: cmp = {:?} but the values are structurally {}", what(), r.cmp, if same { "identical" } else { "different" })), outcome: d.finish(), nontrivial }; }
-            if r.cmp != r.cmp_rev.reverse() { return HistOutcome { violation: viol("c14.ord_antisymmetry", format!("{}: cmp(a,b) = {:?} but cmp(b,a) = {:?}", what(), r.cmp, r.cmp_rev)), outcome: d.finish(), nontrivial }; }
-            if r.pcmp != Some(r.cmp) { return HistOutcome { violation: viol("c14.partial_cmp", format!("{}: partial_cmp = {:?} but cmp = {:?}", what(), r.pcmp, r.cmp)), outcome: d.finish(), nontrivial }; }
-            if !ops_agree(&r) { return HistOutcome { violation: viol("c14.partial_cmp", format!("{}: the operators <, <=, >, >= answer {:?} but cmp = {:?}", what(), r.ops, r.cmp)), outcome: d.finish(), nontrivial }; }
-            if same && !r.hash_same { return HistOutcome { violation: viol("c14.hash_eq", format!("{}: equal values hash differently", what())), outcome: d.finish(), nontrivial }; }
-            rels[i][j] = Some(r.cmp);
-            d.u8(r.cmp as i8 as u8);
+    if let Some(v) = pool_laws(&pool, st, &mut d) { return HistOutcome { violation: Some(v), outcome: d.finish(), nontrivial }; }
+    // key order on its own: single-entry objects over keys of many lengths around the inline
+    // capacity of a key (16 bytes) that share prefixes or not — an order that treats short and
+    // long keys differently, or compares by length first, loses transitivity here
+    {
+        let uni = sc.universe();
+        let mut alphabet: Vec<char> = vec!['a', 'm', 'z'];
+        for k in uni.iter().take(8) { if let Some(c) = k.chars().next() { alphabet.push(c); } }
+        if rng.chance(1, 4) { alphabet.extend(['\u{0}', 'é', '\u{ffff}', '\u{10000}', '\u{10ffff}']); }
+        const LENS: [usize; 14] = [0, 1, 1, 2, 3, 7, 8, 15, 16, 17, 18, 24, 33, 40];
+        let mut keys: Vec<String> = vec![];
+        for _ in 0..3 { keys.push(uni[rng.usize_below(uni.len())].clone()); }
+        let shared: String = (0..rng.usize_below(20)).map(|_| alphabet[rng.usize_below(alphabet.len())]).collect();
+        while keys.len() < 12 {
+            let mut k = if rng.chance(1, 3) { shared.clone() } else { String::new() };
+            let want = *rng.pick(&LENS);
+            while k.len() < want { k.push(alphabet[rng.usize_below(alphabet.len())]); }
+            keys.push(k);
+        }
+        keys.sort(); keys.dedup();
+        // hand the keys over in a drawn order (not sorted)
+        for i in (1..keys.len()).rev() { let j = rng.usize_below(i + 1); keys.swap(i, j); }
+        let built = catch_unwind(AssertUnwindSafe(|| keys.iter().map(|k| {
+            let v = if rng.chance(1, 8) { Value::Boolean(true) } else { Value::Null };
+            Value::Object(Object::from_vec(vec![Entry::new(Key::from(k.as_str()), v)]))
+        }).collect::<Vec<Value>>()));
+        if let Ok(kpool) = built {
+            st.bump("key_order_pools_checked");
+            if let Some(v) = pool_laws(&kpool, st, &mut d) { return HistOutcome { violation: Some(v), outcome: d.finish(), nontrivial }; }
         }
     }
-    for i in 0..n { for j in 0..n { for k in 0..n {
-        if let (Some(a), Some(b), Some(c)) = (rels[i][j], rels[j][k], rels[i][k]) {
-            if a != Ordering::Greater && b != Ordering::Greater && c == Ordering::Greater {
-                return HistOutcome { violation: viol("c14.transitivity", format!("{} <= {} and {} <= {} but {} > {}", pool[i], pool[j], pool[j], pool[k], pool[i], pool[k])), outcome: d.finish(), nontrivial };
-            }
-        }
-    } } }
-    st.add("pool_triples_checked", (n * n * n) as u64);
     HistOutcome { violation: None, outcome: d.finish(), nontrivial }
 }
 
